@@ -124,6 +124,8 @@ def run(case, max_steps=30000):
                     rec['yields'].append((key, obj, sim.now))
                     yield key, obj
                     if kind == 'twice':
+                        if case.get('twice_gap'):
+                            await aio.sleep(case['twice_gap'])     # the duplicate comes a while after the first yield
                         obj2 = Val(b, key, -n)
                         rec['yields'].append((key, obj2, sim.now))
                         yield key, obj2
